@@ -79,10 +79,13 @@ def main():
     ap.add_argument("--tier", default=os.environ.get("VERIF_TIER", "quick"))
     ap.add_argument("--replay")
     ap.add_argument("--skip-lean", action="store_true", help="development aid: skip the Lean side")
+    ap.add_argument("--variant", default=None, help="internal")
     args = ap.parse_args()
     pid = args.pid
     tier = args.tier if args.tier in ("quick", "thorough") else "quick"
     seed = int(os.environ.get("VERIF_SEED", "1") or 1)
+    if args.skip_lean:
+        E.EVIDENCE_DIR = os.path.join(E.WORK, "dev-evidence")
     if pid not in REGISTRY:
         print(f"unknown property {pid}"); sys.exit(2)
     reg = REGISTRY[pid]
@@ -139,8 +142,31 @@ def lean_side(pid, reg, args):
 
 def standard_check(pid, reg, tier, seed, args, t0):
     lean = lean_side(pid, reg, args)
-    binp = E.build_harness(reg.get("features", ()), reg.get("nightly", False))
-    extra = reg.get("harness_args", ())
+    variants = reg.get("variants") or [dict(features=reg.get("features", ()), nightly=reg.get("nightly", False),
+                                            harness_args=reg.get("harness_args", ()), label="default")]
+    if len(variants) > 1 and not args.variant:
+        # run every build / trait-family variant in turn (each is a full standard check); merge verdicts
+        rcs = []
+        evs = []
+        for v in variants:
+            sub = dict(reg); sub["variants"] = [v]
+            rc = standard_check(pid, sub, tier, seed, args, time.time())
+            rcs.append(rc)
+            evs.append(json.load(open(os.path.join(E.EVIDENCE_DIR, f"{pid}.json"))))
+        merged = evs[0]
+        merged["coverage"]["variants"] = [dict(label=v["label"], evaluations=e["coverage"]["evaluations"],
+                                               violations=e.get("violations", 0),
+                                               correspondence=e["coverage"]["correspondence"]) for v, e in zip(variants, evs)]
+        merged["coverage"]["evaluations"] = sum(e["coverage"]["evaluations"] for e in evs)
+        merged["coverage"]["programs"] = len(variants)
+        merged["coverage"]["disagreements_checked"] = sum(e["coverage"]["correspondence"]["projection_mismatches"] + e["coverage"]["correspondence"]["oracle_failures"] for e in evs)
+        merged["violations"] = sum(e.get("violations", 0) for e in evs)
+        merged["wall_s"] = round(time.time() - t0, 2)
+        E.write_evidence(pid, merged)
+        return 1 if any(rcs) else 0
+    v0 = variants[0]
+    binp = E.build_harness(v0.get("features", ()), v0.get("nightly", False))
+    extra = v0.get("harness_args", ())
     if args.replay:
         rp = json.load(open(args.replay))
         cases = [rp["script"]]
@@ -156,6 +182,21 @@ def standard_check(pid, reg, tier, seed, args, t0):
     driver_ok = lean.get("driver_ok", True) and os.path.exists(E.DRIVER)
     impl = E.run_impl(binp, cases, extra)
     model = E.run_model(cases) if driver_ok else [None] * len(cases)
+    ref_bin = None
+    if reg.get("reference_default_build"):
+        # implementation-vs-implementation oracle: the default stable build on the same scripts
+        ref_bin = E.build_harness((), False)
+        ref_out = dict((id(c), r) for c, r in zip(cases, E.run_impl(ref_bin, cases, ())))
+
+        def o_same_as_default(case, out, _cache={}):
+            ro = ref_out.get(id(case))
+            if ro is None:
+                ro = E.run_impl(ref_bin, [case], ())[0]
+            for op, a, b in zip(case, out, ro):
+                if a != b:
+                    return [f"`{op}`: this build prints {a!r}, the default stable build prints {b!r}"]
+            return []
+        reg = dict(reg); reg["oracles"] = list(reg["oracles"]) + [o_same_as_default]
 
     oracle_fail, corr_fail, drifts = [], [], 0
     nontriv = 0
@@ -229,6 +270,13 @@ def standard_check(pid, reg, tier, seed, args, t0):
                 differing=[dict(line=i, op=o, impl=a, model=b) for i, o, a, b in (mism3 or mism)][:5],
                 cases_differing=len(corr_fail)))
             violations.append((path, " no-failing-input-found"))
+    extra_notes = []
+    for f in reg.get("extra_checks", []):
+        pr, note = f()
+        extra_notes.append(note)
+        if pr:
+            path = E.write_replay(pid, "build-or-source", dict(problems=pr, note=note))
+            violations.append((path, ""))
     if lean["broken"] and not violations:
         path = E.write_replay(pid, "proof-obligation", dict(broken=lean["broken"], log=lean.get("log", ""),
                                                             note="no failing input found by the correspondence run and the oracle on this tier"))
@@ -253,7 +301,7 @@ def standard_check(pid, reg, tier, seed, args, t0):
             correspondence=dict(cases=len(cases), lines=sum(len(c) for c in cases), oracle_failures=len(oracle_fail),
                                 projection_mismatches=len(corr_fail), physical_only_drift_cases=drifts,
                                 operations=opcount),
-            proof_obligations_broken=lean["broken"], notes=lean["notes"],
+            proof_obligations_broken=lean["broken"], notes=lean["notes"] + extra_notes,
             explanation=reg.get("explanation", ""),
         ),
         assumptions=reg.get("assumptions", []),
@@ -262,7 +310,7 @@ def standard_check(pid, reg, tier, seed, args, t0):
     for path, suffix in violations:
         print(f"VIOLATION property={pid} replay={os.path.relpath(path, E.VERIF)}{suffix}")
     if not violations:
-        print(f"{pid}: ok — {lean['discharged']}/{lean['obligations']} theorems checked, {len(cases)} cases "
+        print(f"{pid}[{v0.get('label','default')}]: ok — {lean['discharged']}/{lean['obligations']} theorems checked, {len(cases)} cases "
               f"({sum(len(c) for c in cases)} lines) agree, oracle holds, {time.time()-t0:.1f}s")
     return 1 if violations else 0
 
